@@ -211,6 +211,28 @@ class LinOp:
     times = __call__
 
 
+class VecFun:
+    """Uninterpreted function of a vector (objective f, gradient, Hessian at a point ...).
+    Congruence is by construction: an application to an argument that equals an earlier
+    argument returns the earlier value.  Whether two arguments are equal is asked through
+    the ordinary fork mechanism (`if u.eq(v)`), so it is forced where the path condition
+    decides it and forks where it does not."""
+
+    def __init__(self, name, mk):
+        self.name, self.mk, self.apps = name, mk, []
+        self._ctx = None
+
+    def __call__(self, v):
+        if self._ctx is not Ctx.cur:        # fresh table per explored path
+            self._ctx, self.apps = Ctx.cur, []
+        for u, val in self.apps:
+            if u._same(v) or bool(u.eq(v)):
+                return val
+        val = self.mk(f"{self.name}{len(self.apps)}")
+        self.apps.append((v, val))
+        return val
+
+
 def vite(c, a, b):
     """coefficient-wise if-then-else on vectors (meaning of jnp.where on a tree)"""
     ct = tobool(c)
